@@ -96,7 +96,7 @@ impl Scenario for ReproSched {
         "repro_sched"
     }
     fn runs(&self, tier: Tier) -> u64 {
-        tier.pick(2400, 24_000)
+        tier.pick(2400, 72_000)
     }
     fn generate(&self, g: &mut Gen, _tier: Tier, _idx: u64) -> Value {
         let spec = gen_spec(g, KINDS);
@@ -224,7 +224,7 @@ impl Scenario for Concurrent {
         "concurrent_samplers"
     }
     fn runs(&self, tier: Tier) -> u64 {
-        tier.pick(1200, 12_000)
+        tier.pick(1200, 36_000)
     }
     fn generate(&self, g: &mut Gen, _tier: Tier, _idx: u64) -> Value {
         let n = g.usize(2, 3);
@@ -335,7 +335,7 @@ impl Scenario for ProgressVsRun {
         "progress_vs_run"
     }
     fn runs(&self, tier: Tier) -> u64 {
-        tier.pick(1200, 12_000)
+        tier.pick(1200, 36_000)
     }
     fn generate(&self, g: &mut Gen, _tier: Tier, _idx: u64) -> Value {
         let mut spec = gen_spec(g, &["mh_gauss", "mh_gauss_f32", "mh_table", "gibbs_det", "hmc_f32", "nuts_f32"]);
@@ -426,7 +426,7 @@ impl Scenario for InitPure {
         "init_pure"
     }
     fn runs(&self, tier: Tier) -> u64 {
-        tier.pick(2000, 20_000)
+        tier.pick(2000, 60_000)
     }
     fn generate(&self, g: &mut Gen, _tier: Tier, _idx: u64) -> Value {
         json!({"n": g.usize(0, 40), "d": g.usize(0, 12), "m": g.usize(0, 40), "seed": special_seed(g, 3).to_string(), "threads": g.usize(1, 4), "sim": gen_sim(g, 5, false)})
@@ -548,7 +548,7 @@ impl Scenario for SeedSensitivity {
         "seed_sensitivity"
     }
     fn runs(&self, tier: Tier) -> u64 {
-        tier.pick(640, 6_000)
+        tier.pick(640, 18_000)
     }
     fn generate(&self, g: &mut Gen, _tier: Tier, _idx: u64) -> Value {
         let kinds: Vec<&str> = KINDS.iter().copied().filter(|k| kind_uses_library_rng(k)).collect();
